@@ -205,6 +205,10 @@ pub fn c11_random(seed: u64) -> Case {
     if rw.chance(1, 3) {
         mix.rels = vec!["r".into(), "s".into()];
     }
+    if rw.chance(1, 3) {
+        // a relation that is dropped and written again
+        mix.w_drop_rel = 2;
+    }
     let mut ops = gen_ops(&mut rw, &mix);
     ops.push(Op::Restart);
     if rw.chance(1, 3) {
